@@ -114,6 +114,84 @@ func checkC10(p *Program, r *Result) {
 	for _, fn := range sortedFuncs(scope) {
 		runErrFlow(p, r, fn, cfg)
 	}
+	checkLexerChunkState(p, r)
+}
+
+// checkLexerChunkState (C10.n): in the lexer's loadChunk, once the active reader has been replaced by a chunk
+// decoder, every way out of the function — error returns included — has set inChunk. Otherwise an error leaves
+// the lexer reading from the decoder while believing it is outside a chunk: the nested-chunk rejection and the
+// fall-back to the base reader at the decoder's EOF are disabled (unbounded recursion / no progress on crafted input).
+func checkLexerChunkState(p *Program, r *Result) {
+	r.rule("C10.n", "lexer: reader swap and inChunk flag change together on every exit", 1)
+	fn := p.lookupFunc(pkgMcap, "loadChunk")
+	if fn == nil {
+		r.undecided("C10.n", "mcap.loadChunk", "anchor", "", "not found")
+		return
+	}
+	var flag []*ssa.Store
+	for _, st := range fieldStores(fn, "Lexer", "inChunk") {
+		if c, ok := st.Val.(*ssa.Const); ok && c.Value != nil && c.Value.String() == "true" {
+			flag = append(flag, st)
+		}
+	}
+	// reader swaps: direct stores to Lexer.reader and calls of the set*Decoder helpers that store it
+	var swaps []ssa.Instruction
+	for _, st := range fieldStores(fn, "Lexer", "reader") {
+		swaps = append(swaps, st)
+	}
+	for _, ci := range callsIn(fn, func(ci ssa.CallInstruction) bool {
+		f := ci.Common().StaticCallee()
+		return f != nil && p.isRepoFunc(f) && len(fieldStores(f, "Lexer", "reader")) > 0
+	}) {
+		// setNoneDecoder after validation re-installs a reader while already in the chunk: ignore calls dominated by a flag store
+		swaps = append(swaps, ci)
+	}
+	if len(flag) == 0 || len(swaps) == 0 {
+		r.undecided("C10.n", funcName(fn), "inChunk / reader stores", p.pos(fn.Pos()), "no store of inChunk = true or no reader swap found")
+		return
+	}
+	bad := ""
+	for _, in := range instrsOf(fn) {
+		ret, ok := in.(*ssa.Return)
+		if !ok {
+			continue
+		}
+		for _, sw := range swaps {
+			afterSwap := sw.Block() == ret.Block() || reachableFromSuccs(sw.Block())[ret.Block()]
+			if !afterSwap {
+				continue
+			}
+			// a return inside the swap helper's own error handling (err of the helper tested right after the call) is
+			// before the swap took effect: helper returned an error => reader not replaced
+			if ci, isCall := sw.(ssa.CallInstruction); isCall {
+				if c, ok := ci.(*ssa.Call); ok && errorValueOf2(c) != nil && errKnownNonNil(ret, errorValueOf2(c)) {
+					continue
+				}
+			}
+			okFlag := false
+			for _, fl := range flag {
+				if instrDominates(fl, ret) {
+					okFlag = true
+				}
+			}
+			if !okFlag && bad == "" {
+				bad = p.pos(ret.Pos())
+			}
+		}
+	}
+	if bad == "" {
+		r.held("C10.n", funcName(fn), "inChunk set on every exit after the reader swap", p.pos(flag[0].Pos()), "every return reachable from a reader swap is dominated by inChunk = true")
+	} else {
+		r.violated("C10.n", funcName(fn), "inChunk set on every exit after the reader swap", bad,
+			"a return (at "+bad+") leaves the lexer with a chunk decoder installed as its reader but inChunk still false; on crafted input the next chunk record makes the decoder wrap itself (deadlock / stack overflow) instead of being rejected as nested")
+	}
+}
+
+func errorValueOf2(c *ssa.Call) ssa.Value {
+	if _, ok := sigReturnsError(c.Common().Signature()); !ok {
+		return nil
+	}
+	return errorValueOf(c)
 }
 
 func rawFieldList(ba *boundAnalysis) []string {
